@@ -3,7 +3,7 @@
    wip/arrays/a, arrays out of wip/); histories are ANY list of commands with kills after any
    prefix of steps. *)
 From Coq Require Import Arith List Bool.
-From B2Z Require Import Protocol.VczProtocol.
+From B2Z Require Import Protocol.VczProtocol Protocol.VczRecovery.
 Import ListNotations.
 
 Theorem never_falsely_finished : forall (nparts narrays : nat) (nent : nat -> nat -> nat) h,
@@ -25,6 +25,43 @@ Proof.
   apply andb_true_iff in E. tauto.
 Qed.
 Print Assumptions finalise_guard.
+
+(* recovery, in general: from ANY state satisfying the invariant in which init has completed and no
+   array has been moved out of wip/ yet, ANY history of partition commands -- interrupted anywhere,
+   repeated, in any order -- in which the last run of every partition is an uninterrupted one,
+   followed by finalise, ends finished and complete (every entry of every array Full = equal to the
+   uninterrupted run) *)
+Theorem rerun_recovers : forall (nparts narrays : nat) (nent : nat -> nat -> nat) h s,
+  Inv nparts narrays nent s -> s PMeta = Full -> no_array_out narrays s = true ->
+  forallb is_part h = true ->
+  (forall j, j < nparts -> last_full j h (is_full (s (PFinDir j))) = true) ->
+  let s' := run nparts narrays nent true s (h ++ [(Finalise, None)]) in
+  finished s' /\ complete nparts narrays nent s'.
+Proof. exact rerun_recovers. Qed.
+Print Assumptions rerun_recovers.
+
+Theorem rerun_recovers_from_scratch : forall (nparts narrays : nat) (nent : nat -> nat -> nat) h,
+  forallb is_part h = true -> (forall j, j < nparts -> last_full j h false = true) ->
+  let s' := run nparts narrays nent true empty ((Init, None) :: h ++ [(Finalise, None)]) in
+  finished s' /\ complete nparts narrays nent s'.
+Proof. exact rerun_recovers_from_scratch. Qed.
+Print Assumptions rerun_recovers_from_scratch.
+
+(* a re-run finalise (after an interrupted one, or at any other time) either runs to the end -- then
+   the store is finished and complete -- or stops with an error and leaves the finished marker
+   alone: never a silent partial result.  finalise_ok is the model's "returns without raising",
+   which the correspondence run compares with the real exit status (finalise_ok_marker). *)
+Theorem finalise_total_or_error : forall (nparts narrays : nat) (nent : nat -> nat -> nat) s,
+  Inv nparts narrays nent s ->
+  let s' := run1 nparts narrays nent true s (Finalise, None) in
+  if finalise_ok nparts narrays s then finished s' /\ complete nparts narrays nent s' else s' PZmeta = s PZmeta.
+Proof. exact finalise_total_or_error. Qed.
+Print Assumptions finalise_total_or_error.
+
+Theorem finalise_ok_marker : forall (nparts narrays : nat) (nent : nat -> nat -> nat) s,
+  existsb is_fz (steps nparts narrays nent true s Finalise) = finalise_ok nparts narrays s.
+Proof. exact finalise_ok_marker. Qed.
+Print Assumptions finalise_ok_marker.
 
 (* regression witness (F7) and the behaviour of the repaired protocol on the same history *)
 Theorem vcz_partial_partition_refuted : st_F7 PZmeta = Full /\ st_F7 (PArrE 0 1 0) = Absent.
